@@ -11,7 +11,7 @@ func (rs *RecordSet) readFromVersion2(d *decoder) error {
 	baseOffset := d.readInt64()
 	batchLength := d.readInt32()
 
-	if int(batchLength) > d.remain || d.err != nil {
+	if batchLength < 0 || int(batchLength) > d.remain || d.err != nil {
 		d.discardAll()
 		return nil
 	}
